@@ -76,10 +76,10 @@ PROPS = [
     dict(id="C05", functions=CHANNEL + f("p/p2pke", "(*Session).IsReady", "(*Session).Deliver", "NewSession"), assumptions=COMMON + CRYPTO),
     dict(id="C06", functions=SESSION, assumptions=COMMON + CRYPTO),
     dict(id="C07", functions=CHANNEL, assumptions=COMMON + CRYPTO + ["time.Time modelled as an integer instant"]),
-    dict(id="C08", functions=MUX + FRAG_WIRE + FRAG_AGG + HDR + BITMAP + COLL, assumptions=COMMON + BINARY),
+    dict(id="C08", functions=MUX + FRAG_WIRE + FRAG_AGG + HDR + BITMAP + COLL + f("p/p2pke", "parseInitHello") + f("p/kademlia", "(*DHTNode).HandleFindNode", "(*DHTNode).ListNodeInfos"), assumptions=COMMON + BINARY),
     dict(id="C09", functions=VEC + FRAG_SEND + f("s/fragswarm", "newMessage", "appendUvarint") + MB_SEND + HDR + f("p/p2pmux", "(*muxedSwarm).MTU") + f("s/vswarm", "(*SecureRealm).tell", "(*SecureRealm).ask"), assumptions=COMMON + BINARY),
     dict(id="C10", functions=FRAG_WIRE + FRAG_AGG + BITMAP + COLL, assumptions=COMMON + BINARY),
-    dict(id="C11", functions=ASKHUB + f("p/p2pmux", "(*muxCore).serveLoop$1$1", "(*muxCore).serveLoop$1") + f("s/vswarm", "(*SecureRealm).ask") + f("p/mbapp", "(*ask).complete") + f("s/sshswarm", "(*Swarm).Ask", "(*Conn).loop"),
+    dict(id="C11", functions=ASKHUB + f("p/p2pmux", "(*muxCore).serveLoop$1$1", "(*muxCore).serveLoop$1") + f("s/vswarm", "(*SecureRealm).ask") + f("p/mbapp", "(*ask).complete", "(*Swarm).handleAskReply", "(*Swarm).Ask") + f("s/sshswarm", "(*Swarm).Ask", "(*Conn).loop"),
          assumptions=COMMON + HUBS + ["sshswarm's connection table and SSH transport are behind trusted contracts (getConn, Conn.Send)"]),
     dict(id="C12", functions=TELLHUB + ASKHUB + f("s/swarmutil", "(*Queue).Receive") + f("s/multiswarm", "(*multiSwarm).Close", "NewSecureAsk") + CLOSES, assumptions=COMMON + HUBS + ["while Queue.Close waits for checked-out buffers, other goroutines keep the invariants of other hubs (frame of Queue.Close assumed at its call sites)", "library calls made by the Close methods (context cancel functions, listeners, inner swarms, errgroup) keep the hubs' invariants and do not replace the hubs' channels (fnspec assumptions, listed per call)"]),
     dict(id="C13", functions=TELLHUB + ASKHUB + f("s/swarmutil", "(*Queue).Receive") + f("s/udpswarm", "(*Swarm).Receive"), assumptions=COMMON + HUBS + ["net.UDPConn.ReadFromUDP blocks on the socket only (no cancellation, no deadline set by the caller): model"]),
